@@ -71,6 +71,8 @@ function genProgram (rng, opts = {}) {
   lines.push(`  const oc = [a?.concat(${lit()}), o.get(${lit()})?.trim(), o?.[${lit()}].slice(1), a.concat(...b.split(${lit()})), a?.b?.(${lit()}), String.prototype.concat.apply(a, [${lit()}, ...${lit()}])]`)
   lines.push(`  const ml = \`multi${nl}line \${a}${nl}template\`; /* multi${nl} line${nl} comment */ const after = ${lit()}; for (const fk of [${lit()}]) acc += fk + ${lit()}`)
   lines.push(`  label: for (let i = ${lit()}; i < 1; i++) { try { acc += \`\${${lit()}}\${a}\` } catch ({ message = ${lit()} }) { continue label } finally { acc = (${lit()}, acc) } }`)
+  lines.push(`  o[${lit()}] += a; (o[${lit()}]) += b; o[a][${lit()}] += ${lit()}; o[${lit()}][${lit()}] += a + b`)
+  lines.push(`  acc = ${lit()}.replace(${lit()}, a) + ${lit()}.concat(a, ${lit()}) + ${lit()}.padEnd(30, b) + ${lit()}.repeat(a.length) + ${lit()}.replaceAll(a, b) + ${lit()}.trim() + ${lit()}?.concat(a)`)
   lines.push(`  import(${lit()}); return inner(${lit()}) + ${lit()}.length`)
   lines.push('}')
   if (opts.module) lines.push(`export { host as default }; export * from ${lit()}`)
